@@ -63,7 +63,7 @@ _FORMAT_SPEC = re.compile(
     re.ASCII,
 )
 _NO_VERTICAL_SPEC = re.compile(
-    r"(([<|>])?(\d+)?)?\.(#(\.\d+|[0-9a-fA-F]{6})?)?", re.ASCII
+    r"(([<|>])?(\d+)?)?\.(#(\.\d+|[0-9a-fA-F]{6}|#)?)?(\+.+)?", re.ASCII
 )
 _ALPHA_BG_FORMAT = re.compile("#([0-9a-fA-F]{6})?", re.ASCII)
 _TEMP_DIR = mkdtemp()
